@@ -4,7 +4,9 @@ package c18
 import (
 	"context"
 	"errors"
+
 	"fmt"
+	pkgerrors "github.com/pkg/errors"
 	"strings"
 	"time"
 
@@ -260,10 +262,11 @@ func handlerScenario(sp handlerSpec) *explore.Scenario {
 			calls++
 			switch sp.Outcome {
 			case "err":
-				return Res{Val: fmt.Sprintf("r%d", calls)}, errors.New("handler failed")
+				// an annotated error: its text is the whole chain, not just the root cause
+				return Res{Val: fmt.Sprintf("r%d", calls)}, pkgerrors.Wrap(errors.New("handler failed"), "cannot do it")
 			case "err-then-ok":
 				if calls == 1 {
-					return Res{Val: "r1"}, errors.New("handler failed")
+					return Res{Val: "r1"}, pkgerrors.WithMessage(errors.New("handler failed"), "cannot do it")
 				}
 			}
 			return Res{Val: fmt.Sprintf("r%d", calls)}, nil
@@ -300,7 +303,7 @@ func handlerScenario(sp handlerSpec) *explore.Scenario {
 				continue
 			}
 			wantErr := sp.Outcome == "err" || (sp.Outcome == "err-then-ok" && i == 0)
-			if rep.HandlerResult.Val != fmt.Sprintf("r%d", i+1) || (rep.Error != nil) != wantErr || (wantErr && rep.Error.Error() != "handler failed") {
+			if rep.HandlerResult.Val != fmt.Sprintf("r%d", i+1) || (rep.Error != nil) != wantErr || (wantErr && rep.Error.Error() != "cannot do it: handler failed") {
 				vs.Fail("reply-content", "reply %d: result %q error %v (handler outcome %s)", i, rep.HandlerResult.Val, rep.Error, sp.Outcome)
 			}
 		}
